@@ -2,6 +2,7 @@ package engine
 
 import (
 	"io"
+	"math"
 	"strconv"
 	"strings"
 )
@@ -14,9 +15,10 @@ func (f Float) number() {}
 // WriteTerm outputs the Float to an io.Writer.
 func (f Float) WriteTerm(w io.Writer, opts *WriteOptions, _ *Env) error {
 	ew := errWriter{w: w}
-	openClose := opts.left.name == atomMinus && opts.left.specifier.class() == operatorClassPrefix && f > 0
+	negative := math.Signbit(float64(f)) // -0.0 is written with a sign, too.
+	openClose := opts.left.name == atomMinus && opts.left.specifier.class() == operatorClassPrefix && !negative
 
-	if openClose || (f < 0 && opts.left != operator{}) {
+	if openClose || (opts.left != (operator{}) && (letterDigit(opts.left.name) || negative)) {
 		_, _ = ew.Write([]byte(" "))
 	}
 
@@ -38,7 +40,8 @@ func (f Float) WriteTerm(w io.Writer, opts *WriteOptions, _ *Env) error {
 		_, _ = ew.Write([]byte(")"))
 	}
 
-	if !openClose && opts.right != (operator{}) && (opts.right.name == atomSmallE || opts.right.name == atomE) {
+	// Avoid ambiguous e.g. 1.0e10 for 1.0 e10 or 1.0'a' for 1.0 'a'.
+	if !openClose && opts.right != (operator{}) && (letterDigit(opts.right.name) || (needQuoted(opts.right.name) && opts.right.name != atomComma && opts.right.name != atomBar)) {
 		_, _ = ew.Write([]byte(" "))
 	}
 
